@@ -361,6 +361,9 @@ func (r *Reporter) writeEvidence() {
 		known[k] = v
 	}
 	cov["known_finding_observations"] = known
+	if r.Assumptions == nil {
+		r.Assumptions = []string{"bounded exploration: nothing outside the stated bounds is covered"}
+	}
 	ev := map[string]any{
 		"property_id": propID,
 		"tier":        tier,
